@@ -20,29 +20,56 @@ def check(chk):
     q = chk.repo.mod(Q)
     m = chk.repo.mod(MODELS)
     st = chk.repo.mod(ST)
-    ex = q.func('_execute_statement')
+    ex0 = q.func('_execute_statement')
+    # the routing key may be attached in _execute_statement itself or in a module-level helper it hands the statement to
+    cands = [ex0] + [q.get(c_.func.id) for c_ in body_walk(ex0) if isinstance(c_, ast.Call) and isinstance(c_.func, ast.Name) and q.has(c_.func.id) and isinstance(q.get(c_.func.id), ast.FunctionDef)]
+    holders = [f_ for f_ in cands if any(isinstance(st_, ast.Assign) and isinstance(st_.targets[0], ast.Attribute) and st_.targets[0].attr == 'routing_key' for st_ in body_walk(f_))]
+    if len(holders) != 1:
+        raise AnalysisError('_execute_statement: routing key assignment not found')
+    ex = holders[0]
     g = CFG(ex)
     fl = Flow(g, 0, lambda n, c: c)
-    att = [n for n in g.stmt_nodes() if n.kind == 'stmt' and src(n.ast).startswith('s.routing_key =')]
+    att = [n for n in g.stmt_nodes() if n.kind == 'stmt' and isinstance(n.ast, ast.Assign) and isinstance(n.ast.targets[0], ast.Attribute) and n.ast.targets[0].attr == 'routing_key']
     if len(att) != 1:
         raise AnalysisError('_execute_statement: routing key assignment not found')
-    guard = [n for n in body_walk(ex) if isinstance(n, ast.If) and 'key_values' in src(n.test)]
+    svar = src(att[0].ast.targets[0].value)
     good = False
-    if len(guard) == 1:
-        t = guard[0].test
-        # not any(v is None for v in key_values)   |   all(v is not None for v in key_values)
-        if isinstance(t, ast.UnaryOp) and isinstance(t.op, ast.Not) and isinstance(t.operand, ast.Call) and src(t.operand.func) == 'any':
+    why = None
+    # form 1: a guard expression  not any(v is None for v in key_values)  /  all(v is not None for v in key_values)
+    for gi in [n for n in body_walk(ex) if isinstance(n, ast.If) and 'key_values' in src(n.test)]:
+        t = gi.test
+        if isinstance(t, ast.UnaryOp) and isinstance(t.op, ast.Not) and isinstance(t.operand, ast.Call) and src(t.operand.func) == 'any' and t.operand.args and isinstance(t.operand.args[0], ast.GeneratorExp):
             ge = t.operand.args[0]
-            good = isinstance(ge, ast.GeneratorExp) and src(ge.elt) in ('v is None',) and src(ge.generators[0].iter) == 'key_values'
-        elif isinstance(t, ast.Call) and src(t.func) == 'all' and isinstance(t.args[0], ast.GeneratorExp):
+            v_ = src(ge.generators[0].target)
+            if src(ge.elt) == '%s is None' % v_ and src(ge.generators[0].iter) == 'key_values' and any(att[0].ast is x for st_ in gi.body for x in ast.walk(st_)):
+                good, why = True, src(t)
+        elif isinstance(t, ast.Call) and src(t.func) == 'all' and t.args and isinstance(t.args[0], ast.GeneratorExp):
             ge = t.args[0]
-            good = src(ge.elt) == 'v is not None' and src(ge.generators[0].iter) == 'key_values'
-    chk.judge(good, 'C38.attach', ex, 'routing key attached iff no component is None: %s' % (src(guard[0].test) if guard else None),
+            v_ = src(ge.generators[0].target)
+            if src(ge.elt) == '%s is not None' % v_ and src(ge.generators[0].iter) == 'key_values' and any(att[0].ast is x for st_ in gi.body for x in ast.walk(st_)):
+                good, why = True, src(t)
+    # form 2: a loop over the components that leaves the function at the first None, before the key is computed
+    if not good:
+        for lp_ in [n for n in body_walk(ex) if isinstance(n, ast.For) and src(n.iter) == 'key_values' and isinstance(n.target, ast.Name) and not n.orelse]:
+            v_ = lp_.target.id
+            b_ = lp_.body
+            if len(b_) == 1 and isinstance(b_[0], ast.If) and not b_[0].orelse and src(b_[0].test) == '%s is None' % v_ and len(b_[0].body) == 1 and isinstance(b_[0].body[0], ast.Return) \
+                    and b_[0].body[0].value is None:
+                ln = [n for n in g.nodes if n.kind == 'for_iter' and n.ast is lp_]
+                if ln and g.dominates(ln[0], att[0]):
+                    good, why = True, 'for %s in key_values: if %s is None: return' % (v_, v_)
+    chk.judge(good, 'C38.attach', ex, 'routing key attached iff no component is None: %s' % why,
               'the guard tests truthiness (or something else) instead of "is None": a key component equal to 0, "", b"" or False counts as missing and the statement is sent without routing key')
     s = src(ex)
-    chk.judge('key_values = statement.partition_key_values(model._partition_key_index)' in s and 'model._routing_key_from_values(key_values,' in s and 's.routing_key = parts' in s and 's.keyspace = model._get_keyspace()' in s,
+    rk_val = att[0].ast.value
+    if isinstance(rk_val, ast.Name):
+        pdefs = [st_ for st_ in body_walk(ex) if isinstance(st_, ast.Assign) and src(st_.targets[0]) == rk_val.id]
+        rk_val = pdefs[0].value if len(pdefs) == 1 else rk_val
+    chk.judge('key_values = statement.partition_key_values(model._partition_key_index)' in s and src(rk_val).startswith('model._routing_key_from_values(key_values,') and
+              '%s.keyspace = model._get_keyspace()' % svar in s,
               'C38.attach', ex, 'values from the statement by the model\'s key index, serialized by the model, attached with the keyspace', 'routing key hand-over changed')
-    chk.judge('if model._partition_key_index' in s, 'C38.attach', ex, 'only models that compute routing keys', 'guard on _partition_key_index changed')
+    pk_states = list(fl.at(att[0]))
+    chk.judge(bool(pk_states) and all(fa.knows('model._partition_key_index') is True for fa, _c in pk_states), 'C38.attach', ex, 'only models that compute routing keys', 'guard on _partition_key_index changed')
     rk = m.func('BaseModel._routing_key_from_values')
     from ..sem import resolve
     rets_rk = [n for n in body_walk(rk) if isinstance(n, ast.Return)]
@@ -94,7 +121,24 @@ def check(chk):
     up = st.func('BaseCQLStatement._update_part_key_values')
     chk.judge('parts = [None] * len(field_index_map)' in src(pk) and 'w.operator.__class__ == EqualsOperator' in src(pk) and 'return parts' in src(pk), 'C38.values', pk,
               'parts pre-filled with None; only equality clauses contribute', 'partition_key_values changed')
-    chk.judge('parts[field_index_map[clause.field]] = clause.value' in src(up) and 'c.field in field_index_map' in src(up), 'C38.values', up, 'value placed at its key index', 'value placement changed')
+    # each clause whose field is a key column puts its value at that column's index: the membership test may be a filter() predicate or an if inside the loop
+    from .. import sem as _sem38
+    gup, flup = _sem38.flow_of(up)
+    puts = [n for n in gup.stmt_nodes() if n.kind == 'stmt' and isinstance(n.ast, ast.Assign) and isinstance(n.ast.targets[0], ast.Subscript) and src(n.ast.targets[0].value) == 'parts']
+    okv = len(puts) == 1
+    if okv:
+        tgt = puts[0].ast.targets[0]
+        loops_up = [lp_ for lp_ in body_walk(up) if isinstance(lp_, ast.For) and any(puts[0].ast is x for x in ast.walk(lp_))]
+        okv = len(loops_up) == 1 and isinstance(loops_up[0].target, ast.Name)
+    if okv:
+        cv = loops_up[0].target.id
+        okv = src(tgt.slice) == 'field_index_map[%s.field]' % cv and src(puts[0].ast.value) == '%s.value' % cv
+        it_ = loops_up[0].iter
+        filtered = isinstance(it_, ast.Call) and src(it_.func) == 'filter' and len(it_.args) == 2 and isinstance(it_.args[0], ast.Lambda) and src(it_.args[1]) == 'clauses' and \
+            src(it_.args[0].body) == '%s.field in field_index_map' % it_.args[0].args.args[0].arg
+        tested = src(it_) == 'clauses' and all(fa.knows('%s.field in field_index_map' % cv) is True for fa, _c in flup.at(puts[0]))
+        okv = okv and (filtered or tested)
+    chk.judge(okv, 'C38.values', up, 'value placed at its key index', 'value placement changed')
     apk = st.func('AssignmentStatement.partition_key_values')
     chk.judge('self._update_part_key_values(field_index_map, self.assignments, parts)' in src(apk) and 'super(AssignmentStatement, self).partition_key_values(field_index_map)' in src(apk), 'C38.values', apk,
               'INSERT/UPDATE also take key values from their assignments', 'assignment contribution changed')
